@@ -524,6 +524,18 @@ def _suspicion_reader(node, member: str):
     return det.phi, (lambda det=det: det.last_heartbeat)
 
 
+def _marker_advanced(old, new) -> bool:
+    """True when the detector's last_heartbeat moved forward (a heartbeat was recorded between the two samples)."""
+    if new is None or new == old:
+        return False
+    if old is None:
+        return True
+    try:
+        return new > old
+    except TypeError:
+        return True
+
+
 class _Monitor:
     """Samples every (observer, member) view after every delivered event."""
 
@@ -767,8 +779,11 @@ class _Monitor:
             foreign = self.foreign_since[yi][xi]
             self.foreign_since[yi][xi] = 0
             self.phi_prev[(yi, xi)] = cur
-            if prev is None or prev[2] != cur[2] or prev[3] != cur[3]:
+            if prev is None or prev[3] != cur[3] or _marker_advanced(prev[2], cur[2]):
                 continue  # a heartbeat of this member arrived (wire) or was recorded (detector): new episode
+            # round 8: a marker that went back to "never heard" (or backwards) without any ping/ack on the wire is not a
+            # heartbeat: the detector was replaced or wiped, and a fall of the suspicion level across that is judged
+            # (C13-r8-2: a fresh PhiAccrualDetector installed when the local suspicion timer declared the member DEAD)
             self.phi_pairs += 1
             if foreign:
                 self.phi_pairs_foreign += 1
